@@ -25,6 +25,9 @@ Proof.
   - constructor; [exact Hr|]. intros x. apply IH.
 Qed.
 
+Lemma no_mut_catch {A} (p : prog A) : no_mut p -> no_mut (catch p).
+Proof. induction 1 as [a|e|r k Hr Hk IH]; cbn [catch]; constructor; auto. Qed.
+
 (* possible results of a program (over all responses of the environment) *)
 Inductive returns {A} : prog A -> A -> Prop :=
 | ret_ret a : returns (Ret a) a
